@@ -2,22 +2,40 @@
 PROP = dict(
         pkg="c06", level="exploration",
         technique=("schedule-owning PBT (rapid) of the real sync.Synchronizer + Blockchain against a gated DataSource; "
-                   "history oracles via plugin/listener/feeds, count-bounded convergence, -race"),
+                   "the script also holds/releases the store step's tail through the public EventListener hook; "
+                   "history oracles via plugin/listener/feeds (announced chain replayed from both feeds), count-bounded convergence, -race"),
         level_text=("Exploration: hundreds (quick) / thousands (thorough) of generated source scripts; the environment's schedule "
-                    "(which request is answered when and how, when the source reorgs) is owned by the generator, Go-runtime scheduling "
-                    "inside the pipeline is not; oracles are schedule independent; samples the space, does not prove absence."),
+                    "(which request is answered when and how, when the source reorgs, how long a store step stays between its commit and its "
+                    "notifications) is owned by the generator, other Go-runtime scheduling inside the pipeline is not; oracles are schedule independent; samples the space, does not prove absence."),
         rule=("chain generator (all tx kinds, 4 protocol versions) builds a source chain of 1-10 blocks, the node starts with 0..all of them; "
               "rapid script of 5-50 steps, each either answering any parked BlockByNumber/BlockHeaderLatest request (correct answer from the "
               "CURRENT chain, injected error, one of 11 corruptions from the C02 table, a head the source had earlier) or mutating the source "
-              "(extend 1-3, reorg with any fork point incl. genesis, shorten); then the source is frozen and must be matched exactly. "
-              "Non-trivial = a reorg/shorten applied while >= 1 request is parked, or a fetch error answered when remote height = local height, "
-              "or a corrupted block served. Distinct = distinct SHA-256 of the rendered script."),
+              "(extend 1-3, reorg with any fork point incl. genesis, shorten), or arming a hold (22% of the steps while none is armed or held; "
+              "either the next store step or the next store step that brings the node level with the source): the armed store step blocks in the "
+              "public listener hook OnSyncStepDone(OpStore), i.e. after the block is committed and before reorg/new-head notifications and the "
+              "plugin call, until the script releases it (8% of the steps while held), nothing is parked any more, or the script ends; while a step "
+              "is held the script goes on as before, except that 42% of its steps concentrate on the held block: first a reorg whose fork point is "
+              "0-2 blocks below the held block and which leaves the source as long as the node, one shorter or one longer, afterwards answers to the "
+              "fetch of the next height / to a reorg check's latest-header request (so the failed-fetch reorg check runs and decides while the "
+              "store step is still unfinished). Then the source is frozen and must be matched exactly. "
+              "Labels store-step-held>=1 / held:* count the cases with a held step, with a reorg applied while it is held (held:reorg, "
+              "nt:reorg-at-or-below-held-store-step), and with a reorg check that sees the replaced head while the step is held "
+              "(held:reorg-check-sees-replaced-head-while-store-held). "
+              "Non-trivial = a reorg/shorten applied while >= 1 request is parked or at/below a held store step, or a fetch error answered when "
+              "remote height = local height, or a corrupted block served. Distinct = distinct SHA-256 of the rendered script."),
         assumptions=["Go-runtime interleavings inside the fetch/verify/store pipeline are sampled (GOMAXPROCS 2-4, -race), not enumerated",
                      "abandoned blocks never become canonical again (every reorg produces fresh blocks)",
                      "a rollback of the source that is never followed by growth is indistinguishable from a lagging replica: the source grows by one block before it is frozen",
                      "a self-consistent forged block (recomputed hash, right number) is never served to revertTask's hash-comparison fetch: nothing short of re-executing it distinguishes it from a real fork block",
                      "pre_confirmed polling is disabled (poll interval 0) as in the synchronizer's own tests",
-                     "the subscriber drains the lossy feeds promptly; only subsequence / exact-range facts are asserted"],
+                     "a held store step models a slow EventListener / a descheduled store goroutine; a hold ends by script, when no request is parked, at the end of the script, on cancellation, "
+                     "or after a 60 s real-time guard (never reached so far; it would only make the case inconclusive)",
+                     "the feeds are lossy one-slot channels and separate: the plugin's NewBlock (called by the store step after it sent its notifications) waits up to 500 ms until "
+                     "the two readers have received one new-head per stored block and one reorg per reverted range, which keeps the buffers empty; while that succeeds (label "
+                     "feeds-lossless) the announced chain is replayed from both feeds (a reorg is applied before a new head received in the same window between two plugin calls, "
+                     "the relative order of the two channels not being observable) and must be extended by every new head, cut by every reorg exactly at a suffix, contain every "
+                     "block at the time it is reverted, and end equal to the stored chain; after a missed wait (label feeds-lossy) only subsequence / exact-range facts are asserted",
+                     "the announced chain starts as the node's chain at subscription time (pre-loaded blocks)"],
         # TestRaceSync… = the generated check; TestRaceKnown… = deterministic witnesses of the three known findings
         runs=[dict(run="^TestRace", race=True)],
     )
